@@ -61,6 +61,7 @@ package bytes
 //@ pred (bks *Blocks) wf() = bks != nil && bufOK(bks.bts) && 1 <= bks.blkSize && bks.blkSize <= 1<<27 && bks.blksInSegm == 8 * bks.blkSize &&
 //@      1 <= bks.segments && bks.segments * bks.ss() <= bks.bts.ssize && 0 <= bks.freeIdx && bks.freeIdx <= bks.segments * bks.ss() &&
 //@      (bks.freeIdx < bks.segments * bks.ss() ==> bks.freeIdx % bks.ss() < bks.blkSize) &&
+//@      forall(s, int, 0 <= s && s < bks.segments ==> 0 <= s * bks.ss() && s * bks.ss() + bks.ss() <= bks.bts.ssize && s * (bks.blksInSegm + 1) * bks.blkSize == s * bks.ss()) &&
 //@      forall(s, int, forall(p, int, 0 <= s && s < bks.segments && 0 <= p && p < bks.blkSize && s * bks.ss() + p < bks.freeIdx ==> bks.hb(s, p) == 255))
 
 //@ func GetBlocksInSegment(blkSize int) int
@@ -117,3 +118,18 @@ package bytes
 //@   requires bks.wf()
 //@   ensures !(0 <= idx && idx < bks.segments * bks.blksInSegm) ==> r0 == 0 - 1 && r1 == 0 - 1 && r2 == 0
 //@   ensures 0 <= idx && idx < bks.segments * bks.blksInSegm ==> r0 == (idx / bks.blksInSegm) * bks.ss() && r1 == (idx % bks.blksInSegm) / 8 && r2 == (idx % bks.blksInSegm) % 8 && 0 <= r1 && r1 < bks.blkSize && 0 <= r0 && r0 + bks.blkSize <= bks.bts.ssize
+
+// every store byte other than header byte p of segment s is as before
+//@ pred (bks *Blocks) onlyHdrChanged(s int, p int) = forall(x, int, 0 <= x && x < bks.bts.ssize && x != s * bks.ss() + p ==> sbyte(bks.bts, x) == old(sbyte(bks.bts, x)))
+//@ pred (bks *Blocks) storeKept() = forall(x, int, 0 <= x && x < bks.bts.ssize ==> sbyte(bks.bts, x) == old(sbyte(bks.bts, x)))
+//@ pred (bks *Blocks) geomKept() = bks.blkSize == old(bks.blkSize) && bks.blksInSegm == old(bks.blksInSegm) && bks.segments == old(bks.segments) && bks.bts == old(bks.bts) && bks.bts.sarr == old(bks.bts.sarr) && bks.bts.soff == old(bks.bts.soff) && bks.bts.ssize == old(bks.bts.ssize)
+
+// FreeBlock(idx): s = idx/B, p = (idx%B)/8, j = (idx%B)%8 is the header bit of block idx
+//@ func (bks *Blocks) FreeBlock(idx int) error
+//@   props C17
+//@   requires bks.wf() && 0 - (1<<30) <= bks.available && bks.available <= 1<<30
+//@   modifies bks.freeIdx, bks.available, bytesOf(bks.bts.sarr, bks.bts.soff, bks.bts.ssize)
+//@   ensures bks.wf() && bks.geomKept()
+//@   ensures !(0 <= idx && idx < bks.segments * bks.blksInSegm) ==> errIs(r0, errors.ErrInvalid) && bks.storeKept() && bks.available == old(bks.available)
+//@   ensures 0 <= idx && idx < bks.segments * bks.blksInSegm && !old(bitset(bks.hb(idx / bks.blksInSegm, (idx % bks.blksInSegm) / 8), (idx % bks.blksInSegm) % 8)) ==> errIs(r0, errors.ErrNotExist) && bks.storeKept() && bks.available == old(bks.available)
+//@   ensures 0 <= idx && idx < bks.segments * bks.blksInSegm && old(bitset(bks.hb(idx / bks.blksInSegm, (idx % bks.blksInSegm) / 8), (idx % bks.blksInSegm) % 8)) ==> r0 == nil && bks.available == old(bks.available) + 1 && bks.onlyHdrChanged(idx / bks.blksInSegm, (idx % bks.blksInSegm) / 8) && !bitset(bks.hb(idx / bks.blksInSegm, (idx % bks.blksInSegm) / 8), (idx % bks.blksInSegm) % 8) && forall(j2, 0, 8, j2 != (idx % bks.blksInSegm) % 8 ==> bitset(bks.hb(idx / bks.blksInSegm, (idx % bks.blksInSegm) / 8), j2) == old(bitset(bks.hb(idx / bks.blksInSegm, (idx % bks.blksInSegm) / 8), j2)))
